@@ -239,7 +239,13 @@ def main():
         except Exception:  # noqa: B902
             ck.count("net_unserialisable")
             continue
-        accs = ACCS if ck.thorough else [ACCS[(idx + k * 3 + ck.seed) % 6] for k in range(2 if idx % 7 == 0 else 1)]
+        if ck.thorough:
+            accs = ACCS
+        elif getattr(net, "both_classes", False):
+            # one accelerator whose SHRAM has no reserved LUT banks (LUT activations are not merged into the producer) and one with
+            accs = [ACCS[(idx + ck.seed) % 2], ACCS[2 + (idx + ck.seed) % 4]]
+        else:
+            accs = [ACCS[(idx + ck.seed) % 6]]
         for acc in accs:
             opts = ["--accelerator-config", acc]
             if (idx + ck.seed) % 5 == 0:
